@@ -657,6 +657,43 @@ def canon_value(cx, body, e, depth=3):
     return tuple(canon_value(cx, body, c, depth) if isinstance(c, tuple) else c for c in e)
 
 
+def split_option_map(R, e):
+    """(X, value when X is Some, value when X is None) for `X.map(closure).unwrap_or(D)` / `X.map_or(D, closure)`,
+    with the closure's body inlined (its parameter replaced by X@Some.0, its captures by the captured expressions);
+    None for any other expression.  This is the expression form of `if let Some(v) = X { f(v) } else { D }`."""
+    if not (isinstance(e, tuple) and e and e[0] == "call"):
+        return None
+    X = clo = D = None
+    if e[1] == "Option::unwrap_or" and len(e[2]) == 2 and e[2][0][0] == "call" and e[2][0][1] == "Option::map" and len(e[2][0][2]) == 2:
+        X, clo, D = e[2][0][2][0], e[2][0][2][1], e[2][1]
+    elif e[1] == "Option::map_or" and len(e[2]) == 3:
+        X, D, clo = e[2]
+    if clo is None or clo[0] != "agg" or not str(clo[1]).startswith("closure:"):
+        return None
+    try:
+        cb = R.body(clo[1][len("closure:"):])
+        ce = cb.local_expr(0)
+    except Exception:
+        return None
+    if cb.argc != 2 or _has_leaf(ce, ("var", "rec")):
+        return None
+    payload = ("proj", X, ("@Some", "0")) if X[0] != "proj" else ("proj", X[1], tuple(X[2]) + ("@Some", "0"))
+
+    def sub(x):
+        if isinstance(x, tuple):
+            if x == ("arg", 2):
+                return payload
+            if len(x) == 3 and x[0] == "proj" and x[1] == ("arg", 1) and x[2] and str(x[2][0]).isdigit() and int(x[2][0]) < len(clo[2]):
+                cap = clo[2][int(x[2][0])]
+                rest = tuple(x[2][1:])
+                if not rest:
+                    return cap
+                return ("proj", cap, rest) if cap[0] != "proj" else ("proj", cap[1], tuple(cap[2]) + rest)
+            return tuple(sub(c) for c in x)
+        return x
+    return X, sub(ce), D
+
+
 def _subst_args(e, args):
     if isinstance(e, tuple):
         if len(e) == 2 and e[0] == "arg" and isinstance(e[1], int) and 1 <= e[1] <= len(args):
